@@ -405,41 +405,19 @@ func noParamsCache(c *Ctx) {
 		}
 	}
 	r.Analysed["keeper_and_decorator_struct_types"] = nTypes
-	// no stores through receivers/pointer params in keeper and ante packages (state lives in the KVStore only)
-	n := 0
-	for _, f := range w.Funcs {
-		if w.IsGenerated(f) || ir.IsFixture(f) {
-			continue
-		}
-		rel := ir.RelPkg(ir.FnPkg(f).Path())
-		if !(strings.HasPrefix(rel, "x/") && (strings.HasSuffix(rel, "/keeper") || strings.HasSuffix(rel, "/ante"))) && rel != "ante" {
-			continue
-		}
-		for _, b := range f.Blocks {
-			for _, in := range b.Instrs {
-				st, ok := in.(*ssa.Store)
-				if !ok {
-					continue
-				}
-				root := st.Addr
-				for {
-					if fa, ok := root.(*ssa.FieldAddr); ok {
-						root = fa.X
-						continue
-					}
-					break
-				}
-				if p, ok := root.(*ssa.Parameter); ok {
-					n++
-					// writing through a pointer parameter: allowed only for out-parameters of non-keeper types
-					named, _ := ptrElem(p.Type()).(*types.Named)
-					isKeeper := named != nil && (named.Obj().Name() == "Keeper" || strings.HasSuffix(named.Obj().Name(), "Decorator") || named.Obj().Name() == "msgServer")
-					r.Require(!isKeeper, "A6.no-params-cache", "store|"+fn(f), pos(c, in), "keepers and decorators are never mutated after construction (no out-of-band state)", "store through "+p.Name())
-				}
-			}
+	// no write to memory held by a keeper / decorator / module object on any consensus path: a value
+	// remembered there (a decoded parameter, a memoised lookup) is not undone when the branch that
+	// set it is discarded, and is lost on restart
+	scope := consensusScope(c, consensusKinds)
+	var fs []*ssa.Function
+	for f := range scope {
+		if !w.IsGenerated(f) && !ir.IsFixture(f) {
+			fs = append(fs, f)
 		}
 	}
-	r.Analysed["stores_through_pointer_params_in_keeper_pkgs"] = n
+	sortFuncs(fs)
+	keeperMutationRule(c, fs, "A6.no-params-cache")
+	r.Analysed["functions_checked_for_module_object_writes"] = len(fs)
 }
 
 // fieldRule checks the kind-specific rejection inside a field validator: unsigned numeric
